@@ -2,8 +2,12 @@
 import signal
 import sys
 
-if "/repo" not in sys.path:
-    sys.path.insert(0, "/repo")
+import os
+
+# the repository under analysis; /repo unless a development run points POLAR_REPO at a scratch copy
+REPO = os.environ.get("POLAR_REPO", "/repo").rstrip("/")
+if REPO not in sys.path:
+    sys.path.insert(0, REPO)
 
 SETTINGS_DEFAULTS = dict(transform_categoricals=False, cond2arithm=False, disable_type_inference=False,
                          type_fp_iterations=100, numeric_roots=False, numeric_croots=False, numeric_eps=1e-10,
@@ -58,8 +62,8 @@ def exc_info(e):
     tb = traceback.extract_tb(e.__traceback__)
     where = ""
     for fr in reversed(tb):
-        if "/repo/" in fr.filename:
-            where = f"{fr.filename.replace('/repo/', '')}:{fr.name}"
+        if REPO + "/" in fr.filename:
+            where = f"{fr.filename.replace(REPO + '/', '')}:{fr.name}"
             break
     return {"type": type(e).__name__, "msg": str(e)[:200], "where": where}
 
